@@ -47,12 +47,15 @@ def run(chk):
         def hook(w_, st, path, a, d, wh):
             if path.endswith("VecDeque::<T, A>::len"):
                 return EffectResult(tm.sym("QLEN", 64), havoc=False)
+            if path.endswith("VecDeque::<T, A>::capacity"):
+                return EffectResult(tm.sym("QCAP", 64), havoc=False)     # allocation size: unrelated to one frame
             if path.endswith("VecDeque::<T, A>::push_back"):
                 return EffectResult(UNIT, havoc=False)
             return EffectResult(None, havoc=False)
         w.effect_hook = hook
         for p in prog.fns:
-            if "VecDeque::<T, A>::len" in p or "VecDeque::<T, A>::push_back" in p or "VecDeque::<T, A>::pop_front" in p or "VecDeque::<T, A>::resize" in p:
+            if "VecDeque::<T, A>::len" in p or "VecDeque::<T, A>::push_back" in p or "VecDeque::<T, A>::pop_front" in p or "VecDeque::<T, A>::resize" in p \
+                    or "VecDeque::<T, A>::capacity" in p:
                 w.opaque_paths.add(p)
         return w
 
